@@ -118,6 +118,32 @@ let step line =
                    t_fixed g w n a.(13); t_var g w n a.(14) ] in
       Printf.printf "T %s %s\n" name
         (String.concat " " (List.concat_map (fun v -> let h = hex_of_fr v in [h; h; h]) vals))
+  | "K" :: name :: "fft" :: kind :: n :: _threads :: vs ->
+      let v = List.map fr vs in
+      let n = nat n in
+      let r = (match kind with "0" -> fft n v | "1" -> ifft n v | "2" -> coset_fft n v | _ -> coset_ifft n v) in
+      Printf.printf "K %s %s\n" name (String.concat " " (List.map hex_of_fr r))
+  | "K" :: name :: "poly" :: op :: sc :: rest ->
+      let rec split acc = function "|" :: tl -> (List.rev acc, tl) | x :: tl -> split (x :: acc) tl | [] -> (List.rev acc, []) in
+      let (a, b) = split [] rest in
+      let a = List.map fr a and b = List.map fr b and sc = fr sc in
+      let r = (match op with
+        | "0" -> ptrim (padd a b) | "1" -> ptrim (psub a b) | "2" -> ptrim (pmul (ptrim a) (ptrim b))
+        | "3" -> ptrim (pscale sc (ptrim a)) | "4" -> ptrim (ruffini (ptrim a) sc)
+        | "5" -> ptrim (padd a [sc]) | "6" -> ptrim (psub a [sc])
+        | _ -> [peval a sc]) in
+      Printf.printf "K %s %s\n" name (String.concat " " (List.map hex_of_fr r))
+  | "K" :: name :: "binv" :: vs ->
+      Printf.printf "K %s %s\n" name (String.concat " " (List.map hex_of_fr (batch_inversion (List.map fr vs))))
+  | ["K"; name; "lagr"; n; tau] ->
+      Printf.printf "K %s %s\n" name (String.concat " " (List.map hex_of_fr (lagrange_all (domain_log (nat n)) (fr tau))))
+  | ["K"; name; "vanish"; n; tau] ->
+      Printf.printf "K %s %s\n" name (hex_of_fr (vanishing_eval (domain_log (nat n)) (fr tau)))
+  | "K" :: name :: "bary" :: n :: p :: evs ->
+      Printf.printf "K %s %s\n" name (hex_of_fr (interp_eval (domain_log (nat n)) (List.map fr evs) (fr p)))
+  | ["K"; name; "dom"; n] ->
+      let k = domain_log (nat n) in
+      Printf.printf "K %s %d %s %s\n" name (int_of_nat (domain_size (nat n))) (hex_of_fr (domain_gen k)) (hex_of_fr (size_inv k))
   | ["snap"] -> snap ()
   | ["sat"] -> sat ()
   | _ -> Printf.printf "ERR unknown op: %s\n" line
